@@ -22,7 +22,7 @@ use similari::trackers::visual_sort::batch_api::{BatchVisualSort, VisualSortPred
 use similari::trackers::visual_sort::metric::VisualSortMetricType;
 use similari::trackers::visual_sort::options::VisualSortOptions;
 use similari::trackers::visual_sort::simple_api::VisualSort;
-use similari::trackers::visual_sort::{VisualSortObservation, WastedVisualSortTrack};
+use similari::trackers::visual_sort::{VisualSortObservation, VisualSortObservationSet, WastedVisualSortTrack};
 use similari::utils::bbox::{BoundingBox, Universal2DBox};
 use similari::utils::kalman::kalman_2d_box::{Universal2DBoxKalmanFilter, DIM_2D_BOX_X2};
 use similari::utils::kalman::kalman_2d_point::{Point2DKalmanFilter, DIM_2D_POINT_X2};
@@ -41,6 +41,43 @@ const DOC_METHOD: PositionalMetricType = PositionalMetricType::Mahalanobis;
 const DOC_MIN_CONFIDENCE: f32 = DEFAULT_MINIMAL_SORT_CONFIDENCE;
 const DOC_KALMAN_POSITION_WEIGHT: f32 = 1.0 / 20.0;
 const DOC_KALMAN_VELOCITY_WEIGHT: f32 = 1.0 / 160.0;
+
+const DOC_EXPORTS: [&str; 28] = [
+    "BatchSort", "BatchVisualSort", "BoundingBox", "Point2DKalmanFilter", "Point2DKalmanFilterState", "Polygon",
+    "PositionalMetricType", "PredictionBatchResult", "Sort", "SortPredictionBatchRequest", "SortTrack",
+    "SpatioTemporalConstraints", "Universal2DBox", "Universal2DBoxKalmanFilter", "Universal2DBoxKalmanFilterState",
+    "Vec2DKalmanFilter", "VisualSort", "VisualSortMetricType", "VisualSortObservation", "VisualSortObservationSet",
+    "VisualSortOptions", "VisualSortPredictionBatchRequest", "WastedSortTrack", "WastedVisualSortTrack",
+    "intersection_area", "nms", "sutherland_hodgman_clip", "version",
+];
+
+// Debug output of the python wrappers that print themselves (`format!("{self:?}")`): tuple structs of the same name
+// around the wrapped value print exactly what #[derive(Debug)] on the wrapper prints.
+#[derive(Debug)]
+#[allow(dead_code)]
+struct PySortTrack<'a>(&'a SortTrack);
+#[derive(Debug)]
+#[allow(dead_code)]
+struct PyPolygon<'a>(&'a Polygon<f64>);
+#[derive(Debug)]
+#[allow(dead_code)]
+struct PyPositionalMetricType(PositionalMetricType);
+#[derive(Debug)]
+#[allow(dead_code)]
+struct PyVisualSortMetricType(VisualSortMetricType);
+#[derive(Debug)]
+#[allow(dead_code)]
+struct PyVisualSortObservation<'a>(&'a VisualSortObservation<'static>);
+#[derive(Debug)]
+#[allow(dead_code)]
+struct PyVisualSortObservationSet<'a>(&'a VisualSortObservationSet<'static>);
+#[derive(Debug)]
+#[allow(dead_code)]
+struct PyVotingType(similari::trackers::sort::VotingType);
+
+fn both<T: std::fmt::Debug>(x: T) -> J {
+    J::Arr(vec![J::Str(format!("{:?}", x)), J::Str(format!("{:#?}", x))])
+}
 
 // ---- minimal JSON ------------------------------------------------------------------------------------------
 #[derive(Clone, Debug)]
@@ -301,9 +338,9 @@ fn track_obs(t: &SortTrack) -> J {
         ("observed_bbox", u_obs(&t.observed_bbox)),
         ("scene_id", jn(t.scene_id)),
         ("length", jn(t.length as u64)),
-        ("voting_type", J::Str(format!("PyVotingType({:?})", t.voting_type))),
+        ("voting_type", both(PyVotingType(t.voting_type))),
         ("custom_object_id", t.custom_object_id.map(jn).unwrap_or(J::Null)),
-        ("repr", J::Str(format!("PySortTrack({:?})", t))),
+        ("repr", both(PySortTrack(t))),
     ])
 }
 fn wasted_obs(t: &WastedSortTrack) -> J {
@@ -340,6 +377,7 @@ fn vwasted_obs(t: &WastedVisualSortTrack) -> J {
             ),
         ),
         ("repr", J::Str(format!("{:?}", t))),
+        ("str", J::Str(format!("{:#?}", t))),
     ])
 }
 fn kfs_obs(s: &KalmanState<DIM_2D_BOX_X2>) -> J {
@@ -479,6 +517,8 @@ impl Vm {
 
     fn exec1(&mut self, op: &str, ins: &J) -> J {
         match op {
+            // the documented surface of the python module (sorted)
+            "module_exports" => J::Arr(DOC_EXPORTS.iter().map(|s| js(s)).collect()),
             // ---------------- BoundingBox ----------------
             "bb_new" => {
                 let b = BoundingBox::new(ins.f("l"), ins.f("t"), ins.f("w"), ins.f("h"));
@@ -622,7 +662,7 @@ impl Vm {
                 J::Arr(vec![J::Str(format!("{:?}", b)), J::Str(format!("{:?}", b))])
             }
             "poly_points" => poly_obs(getv!(self, ins, "v", O::Poly)),
-            "poly_repr" => J::Str(format!("PyPolygon({:?})", getv!(self, ins, "v", O::Poly))),
+            "poly_repr" => both(PyPolygon(getv!(self, ins, "v", O::Poly))),
             // ---------------- functions ----------------
             "nms" => {
                 let dets: Vec<(Universal2DBox, Option<f32>)> = match self.box_list_f(ins, "dets") {
@@ -833,24 +873,24 @@ impl Vm {
             "pmt_maha" => {
                 let m = PositionalMetricType::Mahalanobis;
                 self.put(ins, O::PMT(m));
-                J::Str(format!("PyPositionalMetricType({:?})", m))
+                both(PyPositionalMetricType(m))
             }
             "pmt_iou" => {
                 let m = PositionalMetricType::IoU(ins.f("threshold"));
                 self.put(ins, O::PMT(m));
-                J::Str(format!("PyPositionalMetricType({:?})", m))
+                both(PyPositionalMetricType(m))
             }
             "vmt_euclidean" => match guarded(|| VisualSortMetricType::euclidean(ins.f("threshold"))) {
                 Some(m) => {
                     self.put(ins, O::VMT(m));
-                    J::Str(format!("PyVisualSortMetricType({:?})", m))
+                    both(PyVisualSortMetricType(m))
                 }
                 None => err(),
             },
             "vmt_cosine" => match guarded(|| VisualSortMetricType::cosine(ins.f("threshold"))) {
                 Some(m) => {
                     self.put(ins, O::VMT(m));
-                    J::Str(format!("PyVisualSortMetricType({:?})", m))
+                    both(PyVisualSortMetricType(m))
                 }
                 None => err(),
             },
@@ -1239,7 +1279,7 @@ impl Vm {
                     _ => None,
                 };
                 let o = VisualSortObservation::new(feature, ins.of("feature_quality"), b, ins.oi("custom_object_id"));
-                let r = J::Str(format!("PyVisualSortObservation({:?})", o));
+                let r = both(PyVisualSortObservation(&o));
                 self.put(ins, O::VObs(o));
                 r
             }
@@ -1252,6 +1292,10 @@ impl Vm {
                 let s = getm!(self, ins, "v", O::VSet);
                 s.push(o);
                 J::Null
+            }
+            "set_str" => {
+                let s = getv!(self, ins, "v", O::VSet);
+                both(PyVisualSortObservationSet(&VisualSortObservationSet { inner: s.clone() }))
             }
             "vreq_new" => {
                 let r = VisualSortPredictionBatchRequest::new();
